@@ -63,6 +63,13 @@ func (g *schemaGenerator) generateRootType() error {
 	}
 
 	rootTypeName := g.getRootTypeName(g.schema, g.schemaFileName)
+	if decl, ok := g.output.declsByName[rootTypeName]; ok && decl.Type == nil {
+		// The name belongs to a declaration that is still being generated: this
+		// file was reached through a reference from inside it. Until that
+		// declaration is complete its name cannot be told from a free one, so the
+		// root type must not be declared under it now.
+		return nil
+	}
 
 	_, err := g.generateDeclaredType((*schemas.Type)(g.schema.ObjectAsType), newNameScope(rootTypeName))
 
